@@ -28,7 +28,12 @@ const NOISE: [&[u8]; 34] = [
 ];
 
 fn blanks() -> BoxedStrategy<Vec<u8>> {
-    prop::sample::select(vec![&b" "[..], b" ", b" ", b"  ", b"\t", b" \t ", b"   "]).prop_map(|s| s.to_vec()).boxed()
+    prop_oneof![
+        12 => prop::sample::select(vec![&b" "[..], b" ", b" ", b"  ", b"\t", b" \t ", b"   "]).prop_map(|s| s.to_vec()),
+        // a run of a chosen length (column-aligned files have long runs)
+        1 => (crate::engine::gen::interesting_len(40), any::<bool>()).prop_map(|(n, tab)| vec![if tab { b'\t' } else { b' ' }; n.max(1)]),
+    ]
+    .boxed()
 }
 
 fn alg_spelling(a: Alg, mask: u32) -> String {
@@ -74,8 +79,10 @@ fn case_strategy(tier: Tier) -> BoxedStrategy<Case> {
         prop::collection::vec(any::<u16>(), 40),
         distgen::rcsid(),
         any::<bool>(),
+        // one document in fifteen: a chosen number of further tokens behind one line
+        prop::option::weighted(0.07, (any::<u16>(), crate::engine::gen::interesting_len(400))),
     )
-        .prop_map(|(files, styles, noise, shuffle, rcs, final_newline)| {
+        .prop_map(|(files, styles, noise, shuffle, rcs, final_newline, trailing)| {
             let mut lines: Vec<Vec<u8>> = vec![];
             let mut k = 0usize;
             let mut seen = std::collections::BTreeSet::new();
@@ -132,6 +139,14 @@ fn case_strategy(tier: Tier) -> BoxedStrategy<Case> {
                     runs.remove(i);
                 }
                 j += 1;
+            }
+            if let Some((sel, n)) = trailing {
+                if !lines.is_empty() {
+                    let k = idx(sel, lines.len());
+                    for _ in 0..n {
+                        lines[k].extend_from_slice(b" t");
+                    }
+                }
             }
             if let Some(r) = rcs {
                 lines.insert(0, r);
